@@ -272,7 +272,14 @@ def r4(cx):
         o1 = o3
         plus1 = any(x[0] == "bin" and x[1][2] in ("Add", "AddWithOverflow") for x in o1) and any(x[0] == "const" and x[1] == "1" for x in o1)
         other_bins = {x[1][2] for x in o1 if x[0] == "bin"} - {"Add", "AddWithOverflow"}
-        if viamax and plus1 and not other_bins:
+        # on EVERY path: each definition the stored value can come from (through plain copies) is itself an addition
+        roots = M.root_defs(bb, op)
+        not_add = [r for r in roots if not (r[0] == "bin" and r[1] in ("Add", "AddWithOverflow"))]
+        if viamax and plus1 and not other_bins and roots and not_add:
+            where = not_add[0][2] if len(not_add[0]) > 2 and isinstance(not_add[0][2], tuple) else None
+            cx.violation(fk, "level-is-max-plus-one", "%s: on some path the target's level is stored without the + 1 (it comes straight from %s%s): the merged chunk stays at its sources' level, "
+                         "is selected again at that level, and the compaction never reaches a fixpoint" % (bb.sp(bi, si), not_add[0][:2], (" at " + bb.sp(*where)) if where else ""), [bb.sp(bi, si)])
+        elif viamax and plus1 and not other_bins:
             cx.passed(fk, "level-is-max-plus-one", [bb.sp(bi, si)])
         else:
             cx.violation(fk, "level-is-max-plus-one", "%s: the target's level is not max(source levels) + 1 (max=%s, +1=%s, other operators=%s)" % (bb.sp(bi, si), viamax, plus1, sorted(other_bins)), [bb.sp(bi, si)])
